@@ -1,5 +1,12 @@
 # id -> (technique, level_claimed.text, design_ref)
 CLAIMED = {
+    "C14": (
+        "map-range body classifier (AST + go/types) for order-sensitivity, linear-inequality guard analysis of site/row arguments with index-safety proofs, type-resolved alphabet/wildcard agreement lint, write-effect (purity) analysis, published-buffer-reuse value-flow rule",
+        "Decides statically the determinism, boundary, alphabet and purity clauses of C14 for every alignment and argument: every range over a map in package align (MaxCharStats, Entropy, Pssm, profiles, rarefaction, ...) is order-insensitive or collect-then-sort, so ties and float sums "
+        "are resolved the same way at every call; Entropy, CharStatsSite and SiteConservation accept exactly 0<=site<=L-1 (nothing outside reaches a success return or an index expression, nothing inside is rejected) and the by-index row accessors behind CharStatsSeq are bounds-checked; "
+        "the wildcard excluded in MaxCharStats, InformativeSites, NumMutationsUniquePerSequence and the two reference-relative mutation counters is the constant of the alignment's own alphabet; the 18 listed statistics never write memory reachable from their receiver/arguments; "
+        "no slice stored into a result record (mutation lists, profiles, new sequences) is written again through a value derived from it afterwards. NOT decided: equality of each statistic with its naive definition on data (counts, entropy values, informative/variable sites, unique gaps/mutations).",
+        "DESIGN.md §3 C14"),
     "C12": (
         "type-resolved alphabet/constant agreement lint (AST + go/types), SSA value-flow rules for the cutoff comparison and ignore tests, per-iteration event counting on the CFG (exactly-one-of partition of the rebuild loop), store/counter pairing for the cached length, linear index-safety proofs",
         "Decides statically the structural clauses of C12 on RemoveCharacterSites, RemoveMajorityCharacterSites, RemoveCharacterSeqs and MaxCharStats, for every input and option combination: the wildcard ignored under ignore-N/X is the constant of the alignment's own alphabet "
